@@ -32,15 +32,14 @@ func checkC18(c *Ctx, r *Report) {
 			if c.isFixture(fn) {
 				continue
 			}
-			stores := storesToField(fn, st.field)
-			if len(stores) == 0 {
+			sites := stampSitesOf(c, fn, st.field)
+			if len(sites) == 0 {
 				continue
 			}
 			// constructors: the object is freshly allocated in this function
 			fresh := true
-			for _, s := range stores {
-				fa := s.Addr.(*ssa.FieldAddr)
-				if _, isAlloc := fa.X.(*ssa.Alloc); !isAlloc {
+			for _, s := range sites {
+				if !s.fresh {
 					fresh = false
 				}
 			}
@@ -59,7 +58,8 @@ func checkC18(c *Ctx, r *Report) {
 			calls := c.CallsTo(funcName(sf))
 			if len(calls) == 0 {
 				// the stamp function may itself contain the delegate call
-				for _, s := range storesToField(sf, st.field) {
+				for _, site := range stampSitesOf(c, sf, st.field) {
+					s := site.at
 					nsites++
 					ok := false
 					for _, a := range callsInNamed(sf, st.delegate...) {
